@@ -124,3 +124,55 @@ class ClassHooksEngine:
             obls.append(Obligation(f"{c.module}:{classctx.name}#class-defines-no:{m}", "frame", [],
                                    z3.BoolVal(m not in have), c.qualname, classctx.lineno))
         return obls
+
+
+class SelfCallShapeEngine:
+    """obligations: every call `self.m(...)` in the function is well-formed against the real `def m` of the same class
+    (number of positional arguments, keyword names, required parameters supplied).  A wrong keyword is a TypeError at
+    run time on a path tests may never take (e.g. an optional argument of a public method)."""
+
+    def __init__(self, registry, opts=None):
+        self.reg = registry
+        self.trivial_frames = 0
+
+    def verify(self, c, fdef, classctx=None):
+        if classctx is None:
+            raise StaleContract(f"{c.qualname}: not a method")
+        defs = {n.name: n for n in classctx.body if isinstance(n, ast.FunctionDef)}
+        obls = []
+        for node in ast.walk(fdef):
+            if not (isinstance(node, ast.Call) and isinstance(node.func, ast.Attribute) and isinstance(node.func.value, ast.Name)
+                    and node.func.value.id == "self" and node.func.attr in defs):
+                continue
+            d = defs[node.func.attr]
+            if any(isinstance(a, ast.Starred) for a in node.args) or any(k.arg is None for k in node.keywords):
+                continue
+            if any(isinstance(dec, ast.Name) and dec.id in ("property", "staticmethod", "classmethod") for dec in d.decorator_list):
+                continue
+            pos = [a.arg for a in d.args.posonlyargs + d.args.args][1:]
+            kwonly = [a.arg for a in d.args.kwonlyargs]
+            ndef = len(d.args.defaults)
+            required = pos[:len(pos) - ndef] if ndef else pos
+            npos = len(node.args)
+            kws = [k.arg for k in node.keywords]
+            ok = True
+            why = ""
+            if npos > len(pos) and d.args.vararg is None:
+                ok, why = False, "too many positional arguments"
+            for k in kws:
+                if k not in pos + kwonly and d.args.kwarg is None:
+                    ok, why = False, f"unexpected keyword {k!r}"
+                elif k in pos[:npos]:
+                    ok, why = False, f"{k!r} given twice"
+            for r in required[npos:]:
+                if r not in kws:
+                    ok, why = False, f"missing argument {r!r}"
+            src = _norm(ast.unparse(node))[:70]
+            name = f"{c.module}:{c.qualname}#call-well-formed:{node.func.attr}:{src}"
+            n = sum(1 for o in obls if o.name.split("[")[0] == name)
+            ob = Obligation(name if n == 0 else f"{name}[{n}]", "pre@call", [], z3.BoolVal(ok), c.qualname, node.lineno)
+            ob.why = why
+            obls.append(ob)
+        if not obls:
+            raise StaleContract(f"{c.qualname}: no self-calls found")
+        return obls
